@@ -235,6 +235,13 @@ func discharge(results []*FuncResult, workDir string, timeoutS int, thorough boo
 				os.WriteFile(cf, []byte(toCVC(q)), 0o644)
 			}
 			r := solve(f, timeoutS*2, thorough, cf)
+			if r.status == "timeout" || r.status == "noanswer" {
+				// still no answer: the machine may be very busy (other checks running at the same time). Once more with six
+				// times the time; an obligation that really cannot be proved answers `unknown` quickly and is not retried here
+				r2 := solve(f, timeoutS*6, thorough, cf)
+				r2.ms += r.ms
+				r = r2
+			}
 			if r.status == "unsat" {
 				o.Status, o.Solver, o.Ms, o.File = "unsat", r.solver+" (retry after "+first+")", o.Ms+r.ms, f
 			} else if o.Status == "noanswer" || o.Status == "error" {
